@@ -10,41 +10,6 @@ open GLua.Generated.Lexer
 open GLua.LexSpec (Bytes)
 open GLua.LexRender
 
-/-! ### expected model token of a rendered token -/
-
-def symType (sp : Bytes) : Int :=
-  if sp = [61, 61] then TEqeq
-  else if sp = [126, 61] then TNeq
-  else if sp = [60, 61] then TLte
-  else if sp = [62, 61] then TGte
-  else if sp = [46, 46] then T2Comma
-  else if sp = [46, 46, 46] then T3Comma
-  else if sp = [58, 58] then T2Colon
-  else match sp with
-    | [c] => (c.toNat : Int)
-    | _ => 0
-
-/-- `Str` of an operator token is its spelling — except the single dot, whose `Str` the scanner leaves empty. -/
-def symStr (sp : Bytes) : Bytes := if sp = [46] then [] else sp
-
-/-- token type (`ast.Token.Type`: the goyacc token number or the character itself). -/
-def tokType : RTok → Int
-  | .name _ => TIdent
-  | .kw k => (((reservedWords.lookup k).getD 0 : Nat) : Int)
-  | .sym sp => symType sp
-  | .num _ => TNumber
-  | .str _ _ => TString
-  | .lstr _ _ _ => TString
-
-/-- token value (`ast.Token.Str`). -/
-def tokStr : RTok → Bytes
-  | .name w => w
-  | .kw k => k.toUTF8.toList
-  | .sym sp => symStr sp
-  | .num n => n.render
-  | .str _ cs => cs.map SChar.denote
-  | .lstr _ _ content => content
-
 /-! ### words -/
 
 theorem peek_headNot (p : UInt8 → Bool) (q : Int → Bool) (hq : ∀ b : UInt8, q (b.toNat : Int) = p b) (hq1 : q (-1) = false)
